@@ -10,7 +10,7 @@ use crate::net::*;
 use crate::refmodel::{ActK, ObjK};
 use crate::tape::{payload, Mix, Tape};
 use crate::tens;
-use crate::{ensure, fail};
+use crate::fail;
 use neurons::tensor::Tensor;
 use serde_json::{json, Value};
 
@@ -84,7 +84,7 @@ fn decode(tape: &[u32], tier: Tier) -> Case {
         kind,
         batch: t.usize(2, if big { 32 } else { 12 }),
         ntrain: t.usize(8, if big { 120 } else { 40 }),
-        neval: t.usize(65, if big { 400 } else { 260 }),
+        neval: if t.chance(1, 3) { t.usize(261, if big { 1200 } else { 700 }) } else { t.usize(65, if big { 400 } else { 260 }) },
         epochs: t.usize(1, 3) as i32,
         wseed: t.raw(),
         dseed: t.raw(),
@@ -248,7 +248,7 @@ impl Prop for C05 {
         1 // the delay plan is process-global; schedules are run one after the other
     }
     fn rule(&self) -> String {
-        "tape-decoded network containing a convolution, optionally a spatial feedback block, a deconvolution and a max-pool, a dense layer, optionally a flat feedback block (with and without skips, 2-4 loops), and a final dense layer (linear / sigmoid / soft-max); dropout on some layers; one of five optimizers; batch 2..12 (thorough 32), 8..40 (120) training samples, 65..260 (400) evaluation inputs (more than one 64-chunk), non-dyadic data, 1-3 epochs with validation data. Schedules per case: 5 (thorough 10) draws from dedicated rayon pools with {2, 3, 5, 8, 16, 32, 48} threads, every second one with a tape-derived delay plan (0-200 us sleeps at the per-sample / per-prediction hooks), plus a repetition of the 1-thread run. Oracle: to_bits equality of train / validation loss vectors, accuracies, all final weights, validate() and predict_batch() in order against the 1-thread run; every run builds a fresh network. Non-trivial: batch >= 4, > 64 evaluation inputs, >= 2 threads. Distinct = (architecture, batch, sizes, schedule list).".into()
+        "tape-decoded network containing a convolution, optionally a spatial feedback block, a deconvolution and a max-pool, a dense layer, optionally a flat feedback block (with and without skips, 2-4 loops), and a final dense layer (linear / sigmoid / soft-max); dropout on some layers; one of five optimizers; batch 2..12 (thorough 32), 8..40 (120) training samples, 65..260 (400) evaluation inputs, in one case of three 261..700 (1200) (more than one 64-chunk), non-dyadic data, 1-3 epochs with validation data. Schedules per case: 5 (thorough 10) draws from dedicated rayon pools with {2, 3, 5, 8, 16, 32, 48} threads, every second one with a tape-derived delay plan (0-200 us sleeps at the per-sample / per-prediction hooks), plus a repetition of the 1-thread run. Oracle: to_bits equality of train / validation loss vectors, accuracies, all final weights, validate() and predict_batch() in order against the 1-thread run; every run builds a fresh network. Non-trivial: batch >= 4, > 64 evaluation inputs, >= 2 threads. Distinct = (architecture, batch, sizes, schedule list).".into()
     }
     fn assumptions(&self) -> Vec<String> {
         vec!["rayon's work-stealing decisions are not owned by the harness: thread counts, repetitions and injected delays are explored, not interleavings; a pass means no dependence was observed".into()]
